@@ -25,6 +25,13 @@ class MapShape:
         self.sym_has = sym_has      # whether "pushed with / without an origin" is symbolic per segment
 
 
+_TIER = ['quick']
+
+
+def args_tier():
+    return _TIER[0]
+
+
 def mapcore_work(sh):
     """one symbolic op sequence shape: pushes before, an optional merged inner text, pushes after"""
     P = E.prog()
@@ -84,8 +91,10 @@ def mapcore_work(sh):
         return {'bad': False}
     mdl = Models()
     ex = Explorer(P, mdl, body, max_paths=6000, step_limit=5_000_000)
+    ex.stop_when = lambda r: r.outcome == 'panic' or (r.outcome == 'ok' and isinstance(r.value, dict) and r.value.get('bad'))
+    ex.deadline = time.time() + (240 if args_tier() == 'quick' else 1800)
     res = ex.run()
-    if ex.truncated:
+    if ex.truncated and not getattr(ex, 'stopped_early', False):
         raise Inconclusive('map core shape %s: path budget exhausted' % sh.label)
     out = {'family': 'mapcore', 'label': sh.label, 'text': 'ops: %d push, merge(%d push), %d push; len in [%d,%d]' % (kb, ki, ka, sh.minlen, LMAX),
            'real_paths': len(res), 'ref_paths': 0, 'pairs': len(res), 'queries': ex.solver_checks, 'solver_s': ex.solver_time,
@@ -183,6 +192,7 @@ def site_role(pg, mm, nat):
 
 
 def families(args):
+    _TIER[0] = args.tier
     shapes = []
     kmax = 4 if args.tier == 'quick' else 7
     for minlen in (1, 0):
